@@ -75,7 +75,9 @@ func runC17(c *Ctx) {
 			sp.Mutations = append(sp.Mutations, mutation{AtAction: 3 + rng.Intn(160), File: rng.Intn(nf), Kind: []string{"rewrite", "append", "replace", "touch", "rewrite-older", "touch-older", "rewrite-same-second"}[rng.Intn(7)]})
 		}
 		if rng.Intn(3) == 0 {
-			sp.Faults = []fault{{Kind: []string{fCutMid, fLostAnswer, fPollFail, fFailPart}[rng.Intn(4)], Nth: 1 + rng.Intn(4), K: rng.Intn(3)}}
+			// (damage in transit makes the receiver answer 'failed': the validation-retry
+			// path hashes and queues the file again - unless it changed meanwhile)
+			sp.Faults = []fault{{Kind: []string{fCutMid, fLostAnswer, fPollFail, fFailPart, fCorrupt, fCorrupt}[rng.Intn(6)], Nth: 1 + rng.Intn(4), K: rng.Intn(3)}}
 		}
 		if rng.Intn(3) == 0 {
 			// a sender restart: what was confirmed before it (and is still in the outgoing
@@ -291,6 +293,23 @@ func c17History(c *Ctx, idx int, seed int64, sp *e2eSpec, dir string) {
 	if dp := os.Getenv("VERIF_DUMP"); dp != "" {
 		b, _ := json.MarshalIndent(map[string]any{"events": o.events, "requests": o.reqs, "final": o.final, "staged": o.staged, "sources": o.sources, "cache": o.cache, "terminated": o.terminated}, "", " ")
 		_ = os.WriteFile(dp, b, 0o644)
+	}
+	// what the sender's cache takes in as "a version" is one version: hash, size and
+	// modification time of every entry added belong to one registered version of that
+	// name (an entry with the hash of the new content under the old size / time makes
+	// the next scan send the same version again, and sends it before it is eligible)
+	for _, e := range o.events {
+		if e.Kind != "cache_add" || e.S == "" {
+			continue
+		}
+		res.Count("cache_entries_checked", 1)
+		if !o.w.isVersion(e.Name, e.S) {
+			continue // content seen in the middle of a write: the integrity oracle's business
+		}
+		if !o.w.describesVersion(e.Name, e.S, e.A, e.B) {
+			v("C17", "cache-entry-is-one-version", "cache-entry-mixes-versions", fmt.Sprintf("the sender cached %s with hash %s, size %d and modification time %s (at %s): no version of the file ever had that hash together with that size and time", e.Name, e.S, e.A, time.Unix(0, e.B).UTC().Format(time.RFC3339Nano), e.VT))
+			break
+		}
 	}
 	oracleIntegrity(o, v) // every delivered byte string is one complete registered version
 	oracleProgress(o, v)  // the final version is delivered, confirmed, recorded
